@@ -21,14 +21,18 @@ AllMaps == UNION { Sub(k) : k \in 0..MaxKeys }
 NoStatus == [desired |-> 0, current |-> 0, ready |-> 0, available |-> 0, upToDate |-> 0, ignored |-> 0, canaryNodes |-> 0]
 NoFlags  == [canary |-> FALSE, ruPaused |-> FALSE, frozen |-> FALSE, failed |-> FALSE]
 
-LabelVec(M) == [fn |-> "labels", labels |-> SetToSeq(M), kind |-> "", status |-> NoStatus, flags |-> NoFlags]
+LabelVec(M) == [fn |-> "labels", labels |-> SetToSeq(M), kind |-> "", status |-> NoStatus, flags |-> NoFlags, cpaused |-> "none"]
 
-MetricVecs ==
+MetricVecsOf(k, CP) ==
     { [fn |-> "metrics", labels |-> <<>>, kind |-> k,
        status |-> [desired |-> d, current |-> c, ready |-> r, available |-> a, upToDate |-> u, ignored |-> i, canaryNodes |-> cn],
-       flags |-> [canary |-> cf, ruPaused |-> p, frozen |-> f, failed |-> fl]] :
-        k \in {"eds", "ers"}, d \in {0, 1, 7}, c \in {0, 2}, r \in {0, 3}, a \in {0, 4}, u \in {0, 5}, i \in {0, 6}, cn \in {0, 2},
-        cf \in BOOLEAN, p \in BOOLEAN, f \in BOOLEAN, fl \in BOOLEAN }
+       flags |-> [canary |-> cf, ruPaused |-> p, frozen |-> f, failed |-> fl],
+       \* the Canary-Paused condition of the ExtendedDaemonSet: absent, True (with a reason), False (fresh), False keeping the reason of an earlier pause
+       cpaused |-> cp] :
+        d \in {0, 1, 7}, c \in {0, 2}, r \in {0, 3}, a \in {0, 4}, u \in {0, 5}, i \in {0, 6}, cn \in {0, 2},
+        cf \in BOOLEAN, p \in BOOLEAN, f \in BOOLEAN, fl \in BOOLEAN,
+        cp \in CP }
+MetricVecs == MetricVecsOf("eds", {"none", "true", "false", "falseReason"}) \cup MetricVecsOf("ers", {"none"})
 
 Space == { LabelVec(M) : M \in AllMaps } \cup MetricVecs
 
